@@ -7,6 +7,7 @@ import Driver.OpCache
 import Driver.Shard
 import Driver.Race
 import Netpoll.Gen.Consts
+import Driver.Dial
 def main (args : List String) : IO UInt32 := do
   match args with
   | ["lb"] => Driver.Lb.main; return 0
@@ -18,4 +19,8 @@ def main (args : List String) : IO UInt32 := do
   | ["adapter"] => Driver.Adapter.main Netpoll.Gen.c_block4k; return 0
   | ["shard", trace] => Driver.Shard.main trace false
   | ["shard", trace, "nomodel"] => Driver.Shard.main trace true
-  | _ => IO.eprintln "usage: npdriver lb | lbspec <ops> <impl> | shard <trace> [nomodel]"; return 2
+  | ["dial"] => Driver.Dial.main Netpoll.Dial.fixedCfg; return 0
+  | ["dial-d13"] => Driver.Dial.main Netpoll.Dial.d13Cfg; return 0
+  | ["dialspec", impl] => Driver.Dial.specMain impl; return 0
+  | ["dialadmit"] => Driver.Dial.admitMain Netpoll.Dial.fixedCfg; return 0
+  | _ => IO.eprintln "usage: npdriver <mode> ... (see lean/Driver/Main.lean)"; return 2
